@@ -77,6 +77,11 @@ class Inst:
                 chunk = (vals.get(name, 0) >> pos) & mask(run)
             else:
                 chunk = (self._driver_value(kind, obj) >> off) & mask(run)
+                if kind == "cell" and obj[0].kind == "$tribuf" and w.port_kind == "inout":
+                    # a tristate driver on a pad: the pad shows the driven value while enabled, else the external value
+                    en = self.sig(obj[0].ports["\\EN"]) & 1
+                    ext = self.bind[name]() if name in self.bind else 0
+                    chunk = ite(en != 0, chunk, (ext >> pos) & mask(run))
             res = res | (chunk << pos)
             pos += run
         self.memo[name] = res
@@ -340,6 +345,52 @@ class RtlilEval:
                     walk(inst.children[(inst.path, c.name)])
         walk(self.top)
         return out
+
+    # --- memories: rows and synchronous read registers after clock events
+    def next_memories(self, active):
+        """`active(inst, cell)`: does this $memwr_v2 / $memrd_v2 cell's clock have its active edge now.  Returns
+        {(path, memid): rows', (path, read cell name): data'} under the published semantics: an active write port stores
+        the EN-selected bits of DATA in the addressed row (ports applied in PORTID order; same-bit conflicts are the
+        caller's precondition); an enabled synchronous read port captures the addressed row as it was before the edge,
+        with the EN-selected bits of every active write port in its TRANSPARENCY_MASK that addresses the same row
+        replaced by that port's DATA; a disabled one holds."""
+        new = {}
+        for inst in self.instances():
+            for memid in inst.m.memories:
+                rows = list(self.state[(inst.path, memid)])
+                wrs = sorted([c for c in inst.m.cells.values() if c.kind == "$memwr_v2" and c.params["\\MEMID"] == memid],
+                             key=lambda c: c.params["\\PORTID"])
+                for c in wrs:
+                    if not c.params["\\CLK_ENABLE"]:
+                        raise NotImplementedError("asynchronous write port")
+                    if not active(inst, c):
+                        continue
+                    a, dta, en = inst.sig(c.ports["\\ADDR"]), inst.sig(c.ports["\\DATA"]), inst.sig(c.ports["\\EN"])
+                    for i in range(len(rows)):
+                        rows[i] = ite(a == i, (rows[i] & ~en) | (dta & en), rows[i])
+                new[(inst.path, memid)] = rows
+                for c in inst.m.cells.values():
+                    if c.kind != "$memrd_v2" or c.params["\\MEMID"] != memid or not c.params["\\CLK_ENABLE"]:
+                        continue
+                    cur = self.state[(inst.path, c.name)]
+                    if not active(inst, c):
+                        new[(inst.path, c.name)] = cur
+                        continue
+                    w = c.params["\\WIDTH"]
+                    old = self.state[(inst.path, memid)]
+                    a = inst.sig(c.ports["\\ADDR"])
+                    cap = 0
+                    for i in reversed(range(len(old))):
+                        cap = ite(a == i, old[i] & mask(w), cap)
+                    tm = c.params["\\TRANSPARENCY_MASK"]
+                    tm = tm.value if isinstance(tm, RP.Const) else tm
+                    for wc in wrs:
+                        if (tm >> wc.params["\\PORTID"]) & 1 and active(inst, wc):
+                            wa, wd, we = inst.sig(wc.ports["\\ADDR"]), inst.sig(wc.ports["\\DATA"]), inst.sig(wc.ports["\\EN"])
+                            cap = ite(wa == a, (cap & ~we) | (wd & we), cap)
+                    en = inst.sig(c.ports["\\EN"]) & 1
+                    new[(inst.path, c.name)] = ite(en != 0, cap, cur)
+        return new
 
     def registers(self):
         """[(inst, cell)] for every $dff / $adff in the hierarchy"""
